@@ -1457,7 +1457,8 @@ class MSgate(Channel):
 
         s = np.sqrt(sf.hbar / 2)
         ancillae_val = backend.mb_squeeze_single_shot(*reg, r, phi, r_anc, eta_anc)
-        return ancillae_val / s
+        # the backend returns the homodyne outcome in hbar=2 units (cf. MeasureHomodyne._apply)
+        return ancillae_val * s
 
     def merge(self, other):
         # Channel.merge multiplies the first parameters, which is how transmissivities compose;
